@@ -6,11 +6,15 @@
 
    Versions: 1 = TLS 1.0, 2 = TLS 1.1, 3 = TLS 1.2, 4 = TLS 1.3  (SSLv3 is not compiled into either OpenSSL here). *)
 EXTENDS Naturals, FiniteSets, TLC
-CONSTANTS DevDefaultFloor      \* set of construction paths whose minimum version is left at the library default (deviation)
-ServerPaths == [backend : {"stdlib", "pyopenssl"}, cert : {"supplied", "generated"}]
+CONSTANTS DevDefaultFloor,     \* set of construction paths whose minimum version is left at the library default (deviation)
+          DevSwallowKeyFault   \* set of backends that log a key/certificate loading fault and go on listening - without TLS (deviation)
+\* material: what the supplied certificate / key files contain.  A pair that cannot be loaded prevents start-up.
+ServerPaths == [backend : {"stdlib", "pyopenssl"}, cert : {"generated"}, material : {"ok"}]
+               \cup [backend : {"stdlib", "pyopenssl"}, cert : {"supplied"}, material : {"ok", "mismatch", "garbageKey", "garbageCert"}]
 ClientPaths == [mode : {"tofu", "ca"}]
 Versions == 1..4
-DevOne == {[backend |-> "pyopenssl", cert |-> "generated"]}     \* used by the self-test
+DevOne == {[backend |-> "pyopenssl", cert |-> "generated", material |-> "ok"]}     \* used by the self-test
+DevPy == {"pyopenssl"}
 Floor(p) == IF p \in DevDefaultFloor THEN 1 ELSE 3
 \* the peer is permissive (accepts 1..peerMax); the result is the highest common version not below the floor
 Negotiate(p, peerMax) == IF peerMax >= Floor(p) THEN peerMax ELSE 0          \* 0 = handshake refused
@@ -21,8 +25,13 @@ Pending == [version |-> 99, header |-> FALSE, handler |-> FALSE]
 Init == /\ path \in ServerPaths \cup ClientPaths
         /\ input \in (IF path \in ClientPaths THEN [kind : {"tls"}, max : Versions] ELSE Inputs)
         /\ out = Pending
+Nothing == [version |-> 0, header |-> FALSE, handler |-> FALSE]
+Faulty == path \in ServerPaths /\ path.material # "ok"
 Eval == /\ out = Pending
-        /\ out' = IF input.kind = "tls"
+        /\ out' = IF Faulty THEN       \* no listener at all - unless the fault is swallowed: then a listener without TLS
+                        (IF path.backend \in DevSwallowKeyFault /\ input.kind = "plainRequest"
+                           THEN [version |-> 0, header |-> TRUE, handler |-> TRUE] ELSE Nothing)
+                   ELSE IF input.kind = "tls"
                     THEN LET v == Negotiate(path, input.max) IN [version |-> v, header |-> v # 0, handler |-> v # 0]
                     ELSE [version |-> 0, header |-> FALSE, handler |-> FALSE]    \* bytes that are not TLS: nothing
         /\ UNCHANGED <<path, input>>
@@ -30,5 +39,5 @@ Spec == Init /\ [][Eval]_vars
 \* ---- properties (C20) ----
 NoOldVersion == out # Pending => out.version \in {0, 3, 4}
 PlaintextGetsNothing == (out # Pending /\ input.kind # "tls") => (~out.header /\ ~out.handler /\ out.version = 0)
-ModernAccepted == (out # Pending /\ input.kind = "tls" /\ input.max >= 3) => out.version = input.max
+ModernAccepted == (out # Pending /\ input.kind = "tls" /\ input.max >= 3 /\ ~Faulty) => out.version = input.max
 =============================================================================
